@@ -15,7 +15,7 @@ Extraction "../ocaml/model.ml"
   Isa.load_isa Isa.get_abilities Isa.compile_program
   Loader.load_proc_desc Loader.make_desc
   Cli.sim_rows Cli.print_table
-  Domain.wf_domainb Diag.wf_procb Diag.wf_progb Diag.C01_order_checkb Diag.C01_replay_checkb Diag.C02_checkb Diag.C03_checkb
+  Domain.wf_domainb Domain.C11_error_okw Diag.wf_procb Diag.wf_progb Diag.C01_order_checkb Diag.C01_replay_checkb Diag.C02_checkb Diag.C03_checkb
   Diag.C04_checkb Diag.C05_checkb Diag.C06_checkb Diag.C07_checkb Diag.C08_checkb
   QueueSpec.a_init QueueSpec.a_can_access QueueSpec.a_dequeue QueueSpec.a_empty QueueSpec.abs_queue
   LoaderSpec.C09_checkb LoaderSpec.C10_checkb LoaderSpec.C11_error_ok LoaderSpec.C11_accept_ok
